@@ -352,6 +352,8 @@ def run_real(F, t, script, fault, max_visits=24):
                      or k.startswith("mahf::state::State::") or k.startswith("<mahf::state::State") or k.startswith("mahf::state::registry::entry::Entry::") or k.startswith("<mahf::state::registry::entry::Entry") or k.startswith("<mahf::state::common::Iterations as core::default::Default>") or k.startswith("mahf::state::require::") or k.startswith("<mahf::state::require::"))
     import statemodel
     store = statemodel.Store(F, levels=MAXLVL, base=HOME, auto=lambda ty: {} if ty == ITER else None, outward=-1, level_of=level_of)
+    inl0 = inl
+    inl = lambda k: inl0(k) or (statemodel.inline(k) and not k.startswith("mahf::state::State::best_"))
     it = install(Interp(fn.body, chain(mk_oracle(script, fault, store), store, coll_oracle, std_oracle), [cfg, Sym("problem"), Ref(HOME - 1, [], frame="root")], facts=F, inline=inl, max_visits=max_visits, max_paths=40, max_depth=40))
     it.dispatch = True
     it.extra_env = {HOME - 1: state}
